@@ -5,6 +5,7 @@ from spverif.core.util import attempt, exc_sig, rand_uint
 from spverif.ref import cfdp as R
 from . import _cfdp as C
 
+SCRIBBLE = True
 ID = "C06"
 LEVEL = "exploration"
 SHARDS = {"quick": 1, "thorough": 16}
@@ -192,6 +193,8 @@ def selftest(ctx):
 
 
 def run(ctx):
+    from spverif.san import scribble
+    scribble.install()
     r = ctx.rng
     i = 0
     reps = 3 if ctx.quick else 8
@@ -262,6 +265,7 @@ def run(ctx):
 
 
 def conclude(ctx):
+    ctx.require(ctx.extra.get("hostile_caller_scribbled_pack_results", 0) > 0, "hostile-caller sanitizer scribbled no pack() result")
     for kind in C.DIRECTIVE_KINDS:
         for crc in (0, 1):
             for large in (0, 1):
